@@ -120,4 +120,7 @@ def main(tier, only=None):
 if __name__ == '__main__':
     import argparse
     ap = argparse.ArgumentParser(); ap.add_argument('prop', nargs='?', default='C14'); ap.add_argument('--tier', default=os.environ.get('VERIF_TIER', 'quick')); ap.add_argument('--only')
-    a = ap.parse_args(); sys.exit((c16_main if a.prop == 'C16' else main)(a.tier, a.only))
+    a = ap.parse_args()
+    if getattr(a, 'only', None) or getattr(a, 'caps', None):
+        os.environ['VERIF_PARTIAL'] = '1'
+    sys.exit((c16_main if a.prop == 'C16' else main)(a.tier, a.only))
